@@ -22,7 +22,7 @@ RULE = (
     "the unknown sample x filler layout {one object per centre; dense-compact ref vs sparse-wide unknown; "
     "reverse; unknown larger in patch 0 but smaller in total} x configuration {binning (right/left closed, "
     "empty middle bin, zmin 0.01, z 1.6-6) x scale set (1,2,3,4 scales, also listed in non-ascending order) x unit (deg, arcmin, kpc, Mpc, kpc/h, "
-    "Mpc/h; one Mpc configuration with a spatially closed LambdaCDM instance, measured after a decoy measurement with another unnamed LambdaCDM of equal scales) x separation weighting (none, alpha=-1 res 1/3/50, alpha=0.5 res 3)} x weights {on, off, mixed: reference and unknown randoms only}; also two-patch worlds with centres 100 deg and exactly 180 deg apart (probes next to the far border); both "
+    "Mpc/h; one Mpc configuration with a spatially closed LambdaCDM instance, measured after a decoy measurement with another unnamed LambdaCDM of equal scales) x separation weighting (none, alpha=-1 res 1/3/50, alpha=0.5 res 3)} x weights {on, off, mixed: reference and unknown randoms only, signed with an exactly cancelling pair}; also two-patch worlds with centres 100 deg and exactly 180 deg apart (probes next to the far border); both "
     "crosscorrelate (dd,dr,rd,rr) and autocorrelate (dd,dr,rr). Oracle: O(n^2) Vincenty long-double pair "
     "loop per (scale,bin,i,j) and per-bin per-patch weight sums. Skipped by rule: a pair within 1e-9 (rel.) "
     "of a scale/fine-bin limit or an object within 1e-9 rad of a Voronoi border. Non-trivial: the reference "
@@ -53,6 +53,9 @@ CONFIGS = {
         # only the reference sample and the unknown randoms carry weights: every kind of pair (w x none, w x w,
         # none x none, none x w) occurs in one measurement
         dict(binning="B2r", scales="ang3", unit="deg", rweight=None, res=None, weighted="mixed"),
+        # signed weights: the probe's weight cancels the weight of the reference object at the first centre
+        # exactly (their tree has weight sum 0.0 whenever both fall into one patch and bin)
+        dict(binning="B2r", scales="ang3", unit="deg", rweight=None, res=None, weighted="cancel"),
     ],
 }
 CONFIGS["thorough"] = CONFIGS["quick"] + [
@@ -139,6 +142,8 @@ def build_catalogs(case):
 
     def o(pos, z=None, tag="", row=0, dra=0.0):
         w = float(next(prime))
+        if W == "cancel" and tag in ("R", "R0", "a") and (tag == "a" or pos == cen_names[0]):
+            w = -3.0 if tag == "a" else 3.0
         ob = worlds.obj(pos, row=row, z=z, w=w if has_w(tag) else None, seed=seed, tag=tag)
         ob["ra"] += dra
         return ob
